@@ -93,7 +93,7 @@ def make_shadow(dest, variant, harness_files, harness_index):
     feats = variant.get("features", [])
     add = "\n[dependencies.refmodels]\npath = \"%s/refmodels\"\n\n[workspace]\n" % VERIF
     # [lints.rust.unexpected_cfgs] may already exist (aes, kuznyechik, serpent): leave it.
-    if "[lints.rust.unexpected_cfgs]" not in s:
+    if "unexpected_cfgs" not in s and "[lints" not in s:
         add += "\n[lints.rust.unexpected_cfgs]\nlevel = \"allow\"\n"
     s = s + add
     if variant.get("pkg_name"):
